@@ -9,6 +9,7 @@ using namespace ob;
 template <class K, size_t R, int AXIS>
 void ob_c04_expand(const mk_t<K,size_t,R>& shape_, const mk_t<K,size_t,R>& idx_, int axis, size_t spacing)
 {
+    assume_len<R>(shape_); assume_len<R>(idx_);
     const auto shape = shape_; const auto idx = idx_;
     constexpr size_t ax = (size_t)(AXIS < 0 ? AXIS + (int)R : AXIS);
     ASSUME(axis == AXIS); ASSUME(spacing >= 1); ASSUME(spacing < (1ul<<20));
@@ -46,6 +47,8 @@ void ob_c04_expand_negctl(const std::array<size_t,2>& shape_, const std::array<s
 }
 #define EX(K,R,A) template void ob_c04_expand<K,R,A>(const mk_t<K,size_t,R>&, const mk_t<K,size_t,R>&, int, size_t);
 #define EXK(R,A) EX(k_std,R,A) EX(k_utl,R,A)
+// bounded run-time-length shapes (the library's run-time-loop branches, which heap-backed shapes take as well)
+EX(k_sv,1,0) EX(k_sv,2,0) EX(k_sv,2,-1) EX(k_sv,3,1) EX(k_sv,3,-3)
 EXK(1,0) EXK(1,-1) EXK(2,0) EXK(2,1) EXK(2,-1) EXK(2,-2) EXK(3,0) EXK(3,1) EXK(3,2) EXK(3,-1) EXK(3,-2)
 #ifdef VERIF_THOROUGH
 EXK(3,-3) EXK(4,0) EXK(4,1) EXK(4,2) EXK(4,3) EXK(4,-1) EXK(4,-2) EXK(4,-3) EXK(4,-4)
